@@ -32,6 +32,10 @@ def calls(rng):
         pool.append(('xml-file:' + f, lambda j, t=t: j.model('xml', t).dump('errors').dump('supported')))
     pool.append(('xta-ok', lambda j: j.model('xta', XTA_OK).dump('errors').dump('doc')))
     pool.append(('xta-translist', lambda j: j.model('xta', 'int i;\nprocess P() { state A, B, C; init A; trans A -> B { guard i == 0; }, -> C { guard i == 1; }; }\nsystem P;\n').dump('errors').dump('doc')))
+    # the grammar remembers the source of a full transition in a static buffer for the chained form: a longer name seen earlier must not show through
+    pool.append(('xta-long-source', lambda j: j.model('xta', 'int i;\nprocess P() { state WaitingForTheOthers, Done; init WaitingForTheOthers; trans WaitingForTheOthers -> Done { guard i == 0; }; }\nsystem P;\n').dump('errors').dump('doc')))
+    pool.append(('xta-translist-short', lambda j: j.model('xta', 'int i;\nprocess P() { state S1, S2, S3, S1iting; init S1; trans S1 -> S2 { }, -> S3 { guard i == 1; }; }\nsystem P;\n').dump('errors').dump('doc')))
+    pool.append(('xta-old-translist', lambda j: j.model('xta', 'int i;\nprocess P { state B1, B2, B3; init B1; trans B1 -> B2 { guard i == 0; }, -> B3 { }; }\nsystem P;\n').dump('errors').dump('doc')))
     pool.append(('xta-error', lambda j: j.model('xta', 'int i; clock x;\nprocess P() { state A; init A; trans A -> Z { guard j == 0; }; }\nsystem P;\n').dump('errors')))
     pool.append(('xta-old', lambda j: j.model('xta', 'int i; clock x;\nprocess P { state A, B; init A; trans A -> B { guard i == 0, x >= 1; assign i := 1; }; }\nsystem P;\n').dump('errors').dump('doc')))
     pool.append(('xta-array-abort', lambda j: j.model('xta', 'int a[2][int[0,1]][ ;\nprocess P() { state A; init A; }\nsystem P;\n').dump('errors')))
@@ -159,12 +163,38 @@ def check(run):
             pool[k][1](j)
             j.end()
         results.append(j)
+    # every ordered pair of calls: one process per first call a; after a, each second call b runs in a forked child, which starts from the
+    # state a left behind (whatever it is: lexer start condition, static buffers and counters of the grammar, errno, the position counter)
+    pairjobs = []
+    for a in range(len(pool)):
+        j = vlib.Job()
+        j.case('pa%d' % a)
+        pool[a][1](j)
+        j.end()
+        for b in range(len(pool)):
+            j.case('pb%d_%d' % (a, b), fork=True)
+            pool[b][1](j)
+            j.end()
+        pairjobs.append(j)
     # run the histories in parallel processes (one process per history)
     import concurrent.futures
     def runh(j):
         return vlib.run_jobs(j, shards=1)
     with concurrent.futures.ThreadPoolExecutor(max_workers=16) as ex:
         outs = list(ex.map(runh, results))
+        pouts = list(ex.map(runh, pairjobs))
+    npairs = 0
+    for a, r in enumerate(pouts):
+        for b in range(len(pool)):
+            c = r.get('pb%d_%d' % (a, b))
+            if c is None:
+                continue
+            npairs += 1
+            got = (c['status'], [strip(cmd[2]) for cmd in c['cmds']])
+            if got != base[b]:
+                first = next(((x, y) for x, y in zip(sum(got[1], []), sum(base[b][1], [])) if x != y), (got[0], base[b][0]))
+                run.fail('%s after %s differs from the same call in a fresh process: %r vs %r' % (pool[b][0], pool[a][0], first[0][:160], first[1][:160]),
+                         dict(history=[pool[a][0], pool[b][0]], got=got[1][:2], fresh=base[b][1][:2]), shape='history-dependence:' + pool[b][0].split(':')[0])
     ncalls, ndiff = 0, 0
     samples = []
     kinds = {}
@@ -185,11 +215,11 @@ def check(run):
                          shape='position-wrap' if wrapped else 'history-dependence:' + pool[k][0].split(':')[0])
             elif len(samples) < 3 and pos > 0:
                 samples.append(dict(history=[pool[x][0] for x in hist[:pos + 1]], seed=seed, call=pool[k][0], status=got[0]))
-    run.cov.update(evaluations=ncalls, distinct_nontrivial=len(histories), traces_validated_against_impl=ncalls,
-                   rule='seeded random histories of 2-8 calls drawn from %d calls (XML buffers incl. ones that end in std::logic_error / NotSupportedException / unterminated comments, XTA new and old syntax, expression, '
+    run.cov.update(evaluations=ncalls + npairs, distinct_nontrivial=len(histories), traces_validated_against_impl=ncalls,
+                   rule='every ordered pair of calls and seeded random histories of 2-8 calls drawn from %d calls (XML buffers incl. ones that end in std::logic_error / NotSupportedException / unterminated comments, XTA new and old syntax, expression, '
                         'query and per-block parses), in one process, optionally with the global position counter carried to values around 2^31 and near 2^32; each call\'s record (return value or exception, messages with path/line/'
                         'column, document dump, supported methods) must equal the record of the same call alone in a fresh process; absolute positions are erased' % len(pool),
-                   samples=samples, histories=len(histories), calls=ncalls, differing=ndiff, call_kinds=kinds)
+                   samples=samples, histories=len(histories), ordered_pairs=npairs, calls=ncalls + npairs, differing=ndiff, call_kinds=kinds)
     run.cov['trusted_base'] += ['hand model State.v of the global variables and their access order (tied by the grammar checks on `types`/`rootTransId` and by the histories)', 'utapdump SEEDPOS hook-free seeding of UTAP::tracker']
     return run.finish('proof', assumptions=['the flex start condition is modelled as exposed state; no input was found that leaves it in the comment state (the <<EOF>> rule resets it)',
                                             'bison\'s parser stack is local to utap_parse and not part of the model'])
